@@ -1,12 +1,26 @@
 (** C05 — Segment analysis verdicts are true of the real machine.
-    Status: the Gallina model of segment.rs (720 lines, tied to the code on
-    every run) has no global soundness theorem yet; what is machine-checked:
-    the F2 refutation at the wrapper entry point, limit monotonicity, and
-    (through the check) every settled verdict of the implementation on the
-    explored programs against the extracted cell-by-cell spec. *)
-From BB Require Import Base TM Ref InstrsModel TapeModel SegmentModel SegmentFacts.
 
-(** the property as stated, for the trait entry point with the true table size *)
+    Status: PROVED for the Gallina model of segment.rs (tied to the code on
+    every run), for the trait entry points with a table size (S, C) that
+    bounds the table, 0 < S, 0 < C:
+      - positive verdicts Halt / Spinout / Blank / Repeat, whatever the goal
+        ([C05_seg_positive_sound]; no hypothesis on the table size needed);
+      - refutations for the goals halt and spin-out ([C05_seg_refuted_sound]);
+      - the goal blank is NEVER refuted ([C05_seg_blank_never_refuted]): that
+        clause holds vacuously;
+      - all together: [C05_seg_verdicts_true].
+    The statement as first written (without 0 < S, 0 < C) is false for the
+    empty table with S = 0 ([C05_seg_verdicts_true_stmt_degenerate]).
+    The wrapper entry points infer the table size from the defined slots
+    (known finding F2): [C05_wrapper_refuted_F2].
+    Proofs: Proofs/SegmentTape.v (layer 1), SegmentSound.v (2-3),
+    SegmentVerdicts.v (4), SegmentAprog/Shape/Refute/Cover/RefuteHalt/
+    RefuteSpin/Blank/All.v (5). *)
+From BB Require Import Base TM Ref InstrsModel TapeModel SegmentModel SegmentFacts.
+From BB Require Import MacroSpec MacroSim SegmentTape SegmentSound SegmentVerdicts
+  SegmentRefuteHalt SegmentRefuteSpin SegmentBlank SegmentAll.
+
+(** the property as first stated (kept; see the degenerate case below) *)
 Definition C05_seg_verdicts_true_stmt : Prop :=
   forall prog S C segs,
     (forall s c pr sh tr, cp_get prog (s, c) = Some (pr, sh, tr) -> s < S /\ c < C /\ tr < S /\ pr < C) ->
@@ -18,6 +32,133 @@ Definition C05_seg_verdicts_true_stmt : Prop :=
     (forall g, sg_segment_cant_reach prog (S, C) segs g = Ok SgrSpinout -> exists n, spins_out_at P init_config n) /\
     (forall g, sg_segment_cant_reach prog (S, C) segs g = Ok SgrBlank -> exists n q, blank_after P init_config n q) /\
     (forall g, sg_segment_cant_reach prog (S, C) segs g = Ok SgrRepeat -> never_halts P init_config).
+
+(** THE PROPERTY, with the two side conditions it needs *)
+Theorem C05_seg_verdicts_true : forall prog S C segs,
+  0 < S -> 0 < C ->
+  (forall s c pr sh tr, cp_get prog (s, c) = Some (pr, sh, tr) -> s < S /\ c < C /\ tr < S /\ pr < C) ->
+  let P := to_prog prog in
+  (forall st, sg_seg_cant_halt prog (S, C) segs = Ok (SgrRefuted st) -> forall n sl, ~ halts_at P init_config n sl) /\
+  (forall st, sg_seg_cant_spin_out prog (S, C) segs = Ok (SgrRefuted st) -> forall n, ~ spins_out_at P init_config n) /\
+  (forall st, sg_seg_cant_blank prog (S, C) segs = Ok (SgrRefuted st) -> forall n, ~ erases_at P init_config n) /\
+  (forall g, sg_segment_cant_reach prog (S, C) segs g = Ok SgrHalt -> exists n sl, halts_at P init_config n sl) /\
+  (forall g, sg_segment_cant_reach prog (S, C) segs g = Ok SgrSpinout -> exists n, spins_out_at P init_config n) /\
+  (forall g, sg_segment_cant_reach prog (S, C) segs g = Ok SgrBlank -> exists n q, blank_after P init_config n q) /\
+  (forall g, sg_segment_cant_reach prog (S, C) segs g = Ok SgrRepeat -> never_halts P init_config).
+Proof. exact seg_verdicts_true. Qed.
+Print Assumptions C05_seg_verdicts_true.
+
+(** without 0 < S the statement fails: empty table, S = 0: Refuted(0) for
+    halt, and the machine halts at step 0 *)
+Theorem C05_seg_verdicts_true_stmt_degenerate : ~ C05_seg_verdicts_true_stmt.
+Proof. exact seg_verdicts_stmt_false. Qed.
+Print Assumptions C05_seg_verdicts_true_stmt_degenerate.
+
+(** layer 4 — THE POSITIVE VERDICTS: whatever the goal, an answer Halt /
+    Spinout / Blank / Repeat is true of the machine started on the blank tape *)
+Theorem C05_seg_positive_sound : forall prog S C segs g,
+  prog_within prog S C ->
+  let P := to_prog prog in
+  (sg_segment_cant_reach prog (S, C) segs g = Ok SgrHalt -> exists n sl, halts_at P init_config n sl) /\
+  (sg_segment_cant_reach prog (S, C) segs g = Ok SgrSpinout -> exists n, spins_out_at P init_config n) /\
+  (sg_segment_cant_reach prog (S, C) segs g = Ok SgrBlank -> exists n q, blank_after P init_config n q) /\
+  (sg_segment_cant_reach prog (S, C) segs g = Ok SgrRepeat -> never_halts P init_config).
+Proof. intros prog S C segs g _. exact (seg_positive_sound prog (S, C) segs g). Qed.
+Print Assumptions C05_seg_positive_sound.
+
+(** ... and in fact for ANY claimed table size (so also at the wrapper entry
+    points, whose inferred size can be wrong: F2 only affects refutations) *)
+Theorem C05_seg_positive_sound_any_params : forall prog params segs g,
+  let P := to_prog prog in
+  (sg_segment_cant_reach prog params segs g = Ok SgrHalt -> exists n sl, halts_at P init_config n sl) /\
+  (sg_segment_cant_reach prog params segs g = Ok SgrSpinout -> exists n, spins_out_at P init_config n) /\
+  (sg_segment_cant_reach prog params segs g = Ok SgrBlank -> exists n q, blank_after P init_config n q) /\
+  (sg_segment_cant_reach prog params segs g = Ok SgrRepeat -> never_halts P init_config).
+Proof. exact seg_positive_sound. Qed.
+Print Assumptions C05_seg_positive_sound_any_params.
+
+(** layer 5 — THE REFUTATIONS for the goals halt and spin-out *)
+Theorem C05_seg_refuted_sound : forall prog S C segs,
+  prog_within prog S C -> 0 < S -> 0 < C ->
+  let P := to_prog prog in
+  (forall st, sg_seg_cant_halt prog (S, C) segs = Ok (SgrRefuted st) -> forall n sl, ~ halts_at P init_config n sl) /\
+  (forall st, sg_seg_cant_spin_out prog (S, C) segs = Ok (SgrRefuted st) -> forall n, ~ spins_out_at P init_config n).
+Proof.
+  intros prog S C segs Hw HS HC P. split; intros st H.
+  - exact (seg_refuted_halt_sound prog S C segs st (prog_within_sound prog S C Hw) HS HC H).
+  - exact (seg_refuted_spin_sound prog S C segs st (prog_within_sound prog S C Hw) HS HC H).
+Qed.
+Print Assumptions C05_seg_refuted_sound.
+
+(** ... and the goal blank is never refuted, for any table and any size *)
+Theorem C05_seg_blank_never_refuted : forall prog params segs st,
+  sg_seg_cant_blank prog params segs <> Ok (SgrRefuted st).
+Proof. exact seg_cant_blank_never_refuted. Qed.
+Print Assumptions C05_seg_blank_never_refuted.
+
+(** layer 1: one step of the run-length window tape is k >= 1 steps of the
+    real machine inside the window (same state, same scanned colour before the
+    last step: the same-state sweep) *)
+Theorem C05_seg_tape_step_sim : forall (P : prog) q c pr sh q' t t' T h,
+  P (q, c) = Some (pr, sh, q') ->
+  sgt_scan t = Some c -> tape_ok t -> rep t T h ->
+  sg_tape_step t sh pr (q' =? q) = Ok t' ->
+  exists k T' h',
+    (1 <= k)%nat /\
+    TMabs.a_steps P k (TMabs.mkA q h T) = Some (TMabs.mkA q' h' T') /\
+    tape_ok t' /\ rep t' T' h' /\
+    (forall i ci, (i < k)%nat -> TMabs.a_steps P i (TMabs.mkA q h T) = Some ci ->
+       (wl t h <= TMabs.a_h ci <= wr t h)%Z /\ TMabs.a_q ci = q /\
+       TMabs.a_t ci (TMabs.a_h ci) = c) /\
+    (forall y, ~ (wl t h <= y <= wr t h)%Z -> T' y = T y) /\
+    match sgt_scan t' with
+    | Some _ => wl t' h' = wl t h /\ wr t' h' = wr t h
+    | None =>
+        if sh then h' = (wr t h + 1)%Z /\ sgt_rspan t' = [] /\ wl t' h' = wl t h
+        else h' = (wl t h - 1)%Z /\ sgt_lspan t' = [] /\ wr t' h' = wr t h
+    end.
+Proof. exact sg_tape_step_sim. Qed.
+Print Assumptions C05_seg_tape_step_sim.
+
+(** layer 2: what the results of [run_to_edge] mean for a configuration whose
+    flag [init] is set at the end ([rte_post], Proofs/SegmentSound.v) *)
+Theorem C05_seg_run_to_edge_sound : forall prog goal c cs,
+  cfg_ok c -> rte_post prog (sgs_todo cs) (sg_run_to_edge prog goal c cs).
+Proof. exact sg_run_to_edge_sound. Qed.
+Print Assumptions C05_seg_run_to_edge_sound.
+
+(** layer 3: every configuration the exploration hands to [run_to_edge] with
+    its flag [init] set is a real configuration of the machine *)
+Theorem C05_seg_init_exact : forall prog (ap : sg_aprog) goal, sga_prog ap = prog ->
+  forall n cs0 cs, asr_inv cs0 ->
+  iter_nat n (sg_asr_body ap goal) cs0 = inl cs ->
+  forall c cs', sg_configs_next cs = Ok (Some c, cs') ->
+  tape_ok (sgc_tape c) /\ (sgc_init c = true -> real_at prog 0 (sg_x c)).
+Proof. exact sg_init_exact. Qed.
+Print Assumptions C05_seg_init_exact.
+
+(** non-vacuity: each verdict is produced (model run by vm_compute) *)
+Definition c05_p_spin : comp_prog := [((0,0),(0,true,0)); ((0,1),(1,true,0))].
+Definition c05_p_blank : comp_prog :=
+  [((0,0),(1,true,1)); ((0,1),(0,true,0)); ((1,0),(0,false,0)); ((1,1),(1,false,1))].
+Definition c05_p_rep : comp_prog :=
+  [((0,0),(1,true,1)); ((0,1),(1,true,1)); ((1,0),(1,false,0)); ((1,1),(1,false,0)); ((2,0),(1,false,0))].
+(* 1RB 1LB  0RA ... *)
+Definition c05_p_nohalt : comp_prog := [((0,0),(1,true,1)); ((0,1),(1,false,1)); ((1,0),(0,true,0))].
+(* 1RB 1LA  1LB 0LA *)
+Definition c05_p_nospin : comp_prog :=
+  [((0,0),(1,true,1)); ((0,1),(1,false,0)); ((1,0),(1,false,1)); ((1,1),(0,false,0))].
+Example C05_nonvacuous :
+  sg_segment_cant_reach f2_seg_prog (2, 2) 3 SgHalt = Ok SgrHalt /\
+  sg_segment_cant_reach c05_p_spin (1, 2) 3 SgSpinout = Ok SgrSpinout /\
+  sg_segment_cant_reach c05_p_blank (2, 2) 3 SgBlank = Ok SgrBlank /\
+  sg_segment_cant_reach c05_p_rep (3, 2) 3 SgHalt = Ok SgrRepeat /\
+  sg_seg_cant_halt c05_p_nohalt (2, 2) 4 = Ok (SgrRefuted 2) /\
+  sg_seg_cant_spin_out c05_p_nospin (2, 2) 4 = Ok (SgrRefuted 3) /\
+  prog_within f2_seg_prog 2 2 /\ prog_within c05_p_spin 1 2 /\
+  prog_within c05_p_blank 2 2 /\ prog_within c05_p_rep 3 2 /\
+  prog_within c05_p_nohalt 2 2 /\ prog_within c05_p_nospin 2 2.
+Proof. repeat split; vm_compute; reflexivity. Qed.
 
 (** F2 at the wrapper: the inferred table size hides the halting slot *)
 Theorem C05_wrapper_refuted_F2 :
